@@ -10,6 +10,10 @@ use std::sync::atomic::{AtomicU64, Ordering};
 use std::sync::Arc;
 
 type Storage = DashMap<KeyType, Record>;
+
+/// Conditional stores for a key that is absent keep `cas + 1` as the item's token only
+/// for request CAS values below this limit.
+const CLIENT_CAS_LIMIT: u64 = 1 << 63;
 pub struct MemoryStore {
     memory: Storage,
     timer: Arc<dyn timer::Timer + Send + Sync>,
@@ -112,16 +116,11 @@ impl Cache for MemoryStore {
                     if key_value.header.cas != record.header.cas {
                         Err(CacheError::KeyExists)
                     } else {
-                        record.header.cas = match record.header.cas.checked_add(1) {
-                            Some(cas) => cas,
-                            None => self.get_cas_id(),
-                        };
-                        // keep the counter ahead of tokens derived from client values,
-                        // so that it never hands out this one a second time
-                        #[cfg(memcrs_verif)]
-                        crate::verif_hooks::yield_point("atomic.fetch_max");
-                        self.cas_id
-                            .fetch_max(record.header.cas.wrapping_add(1), Ordering::Release);
+                        // a store onto an existing item takes its token from the counter,
+                        // never from the client's value, so that clients cannot steer the
+                        // counter into wrapping to the reserved 0 or into handing out a
+                        // token a second time
+                        record.header.cas = self.get_cas_id();
                         record.header.timestamp = self.timer.timestamp();
                         let cas = record.header.cas;
                         *key_value = record;
@@ -129,14 +128,18 @@ impl Cache for MemoryStore {
                     }
                 }
                 None => {
-                    record.header.cas = match record.header.cas.checked_add(1) {
-                        Some(cas) => cas,
-                        None => self.get_cas_id(),
+                    // the token derived from the client's value is kept only in the lower
+                    // half of the range, where the counter can be moved past it without
+                    // coming anywhere near wrap-around; otherwise the counter supplies it
+                    record.header.cas = if record.header.cas < CLIENT_CAS_LIMIT {
+                        record.header.cas + 1
+                    } else {
+                        self.get_cas_id()
                     };
                     #[cfg(memcrs_verif)]
                     crate::verif_hooks::yield_point("atomic.fetch_max");
                     self.cas_id
-                        .fetch_max(record.header.cas.wrapping_add(1), Ordering::Release);
+                        .fetch_max(record.header.cas + 1, Ordering::Release);
                     record.header.timestamp = self.timer.timestamp();
                     let cas = record.header.cas;
                     #[cfg(memcrs_verif)]
